@@ -55,7 +55,13 @@ def gen_case(rng):
     sizes = [rng.randint(1, 4) if i != k else rng.choice([1, 2, 3, 4, 5]) for i in range(nd)]
     sp = gen.spec(rng, dims=dims, sizes=sizes, kinds=kinds, dtype=rng.choice('ffi'))
     lab = sp["labels"][k]
-    c = {"variant": variant, "a": sp, "k": k, "new": new_points(rng, lab), "by_pos": rng.random() < 0.5,
+    nanp = 'none'
+    if sp["values"].dtype.kind == 'f' and rng.random() < 0.3:
+        # missing values in the data: nodes next to a NaN must still be reproduced exactly
+        v = sp["values"]
+        v[np.array([rng.random() < 0.25 for _ in range(v.size)]).reshape(v.shape)] = np.nan
+        nanp = 'some'
+    c = {"variant": variant, "nan": nanp, "a": sp, "k": k, "new": new_points(rng, lab), "by_pos": rng.random() < 0.5,
          "form": rng.choice(['list', 'array', 'Axis']), "fills": rng.choice([None, None, 'left', 'right', 'both'])}
     c["issorted"] = True if (model.strict_dir(lab) in ('inc', 'any') and rng.random() < 0.3) else None
     if variant == 'dataset':
@@ -116,7 +122,7 @@ def check(case, ctx):
     if any(x in lab for x in new):
         ctx.outcomes['nodes-exact'] += 1
     where = tuple(sorted(set('below' if x < lo else 'above' if x > hi else 'on' if x in lab else 'between' for x in new)))
-    klass = (case["variant"], m.ndim, k, model.strict_dir(lab) or 'shuf', len(lab), where, fills, m.values.dtype.kind, case["issorted"])
+    klass = (case["variant"], m.ndim, k, model.strict_dir(lab) or 'shuf', len(lab), where, fills, m.values.dtype.kind, case["issorted"], case.get("nan"))
     tol = dict(rtol=1e-12, atol=1e-9)
     if case["variant"] == 'like':
         tsp = case["template"]
